@@ -317,12 +317,20 @@ func (e *agentEngine) Setup(r *Run) {
 		e.times[0] = time.Time{} // the zero time is just the earliest instant
 	}
 	if r.Pct(20, "far-future") {
-		e.times[e.nT-1] = time.Date(9999, 12, 31, 23, 59, 59, 0, time.UTC) // a "never" deadline (the latest instant in use)
+		// a "never" deadline: the latest deadline in use; the one later collect
+		// time (index nT) must stay after it, the model orders instants by index
+		e.times[e.nT-1] = time.Date(9999, 12, 31, 23, 59, 59, 0, time.UTC)
+		e.times[e.nT] = e.times[e.nT-1].Add(time.Hour)
 	}
 	if r.Pct(20, "close-times") {
 		// instants one nanosecond apart: the comparison must be exact
 		for i := 1; i < e.nT-1; i++ {
 			e.times[i] = base.Add(time.Duration(i))
+		}
+	}
+	for i := 1; i <= e.nT; i++ {
+		if !e.times[i-1].Before(e.times[i]) {
+			panic(&harnessPanic{fmt.Sprintf("agent engine: instants out of order at index %d", i)})
 		}
 	}
 	for i := 0; i < aMaxIDs; i++ {
